@@ -227,6 +227,49 @@ class Gen:
     return {'ops': ops}
 
 
+def scatter_history(g):
+  """one notified rebind that deletes 2-4 NON-ADJACENT items of a list (MISSING under scattered
+  positions), mixed with replacements / insertions in the same batch; on the list itself or through
+  an ancestor path. The live items in between must stay where they are (re-indexed), the deleted
+  ones must be detached."""
+  r = g.r
+  n = r.randint(5, 8)
+  items = []
+  for i in range(n):
+    k = r.below(4)
+    items.append(['d', list(F), [[['k', 0], i]]] if k < 2 else (['l', list(F), [i]] if k == 2 else i))
+  root_items = [[['k', 0], ['l', list(F), items]]]
+  if r.chance(0.5):
+    root_items.append([['k', 1], ['d', list(F), []]])
+  ops = [{'op': 'new', 'v': ['d', list(F), root_items]}]
+  for _ in range(r.below(3)):
+    ops.append(g.op(0.1))
+  for _ in range(r.randint(1, 2)):
+    # positions with a gap of at least one live item between two deletions
+    cnt = r.randint(2, 4)
+    pos, p = [], r.below(2)
+    while len(pos) < cnt and p < n:
+      pos.append(p)
+      p += r.randint(2, 3)
+    if len(pos) < 2:
+      pos = [0, 2]
+    via_root = r.chance(0.6)
+    mk = (lambda i: [['k', 0], ['abs', i]]) if via_root else (lambda i: [['abs', i]])
+    pairs = [[mk(i), False, 'M'] for i in pos]
+    free = [i for i in range(n) if i not in pos]
+    if free and r.chance(0.5):
+      pairs.append([mk(free[r.below(len(free))]), False, g.top_value(0.2)])
+    if free and r.chance(0.3):
+      pairs.append([mk(free[r.below(len(free))]), True, g.value(1, 0.0)])
+    if r.chance(0.5):
+      pairs.reverse()
+    ops.append({'op': 'rebind', 't': 0 if via_root else 1, 'n': True, 'pairs': pairs,
+                'skip': r.weighted([(6, None), (3, False)])})
+    for _ in range(r.below(3)):
+      ops.append(g.op(0.1))
+  return {'ops': ops}
+
+
 def exhaustive_small():
   """All histories of length 2 over a 2-level seed tree and a small argument pool."""
   seed = [{'op': 'new', 'v': ['d', list(F), [[['k', 0], ['l', list(F), [['d', list(F), []], 1, ['l', list(F), [2]]]]],
@@ -280,7 +323,9 @@ class C01(Prop):
           'boundary-biased indices (len+d, -len+d), existing nodes offered as values (relocate-or-copy), '
           'change notification off in 0/25/90 % of the calls of a history. Non-trivial: at least 3 '
           'operations took effect (outcome ok) and the forest has at least 3 nodes at the end; '
-          'distinct: by the JSON text of the history. Plus an oracle-only family (300 / 4000 cases): pg.Dict bound to one of '
+          'distinct: by the JSON text of the history. Plus 60 / 900 histories around one notified rebind that deletes 2-4 '
+          'non-adjacent items of a list (mixed with a replacement / an insertion, on the list or through its holder). '
+          'Plus an oracle-only family (300 / 4000 cases): pg.Dict bound to one of '
           '3 schemata and a pg.Object class whose fields have container defaults (nested Dict fields, List fields with list '
           'defaults, Any fields, a required field), with or without allow_partial, alone or inside a Dict / List holder, then '
           '1-8 of clear / del / pop / popitem / assignment or rebind of MISSING / assignment / rebind / update / setdefault on '
@@ -311,6 +356,9 @@ class C01(Prop):
     # (the framework keeps every dump of every case in memory: ~1 MB per long history)
     ex = [ex[i] for i in range(0, len(ex), 37 if tier == 'quick' else 1)]
     yield from ex
+    # batched rebinds that delete scattered list items
+    for _ in range(60 if tier == 'quick' else 900):
+      yield scatter_history(g)
     # oracle-only family: containers bound to a schema with container defaults (harness/c01lib.py)
     for _ in range(300 if tier == 'quick' else 4000):
       yield c01lib.gen_case(rng)
